@@ -88,6 +88,12 @@ CLAIMED = {
         "note": "Trusted: z3, symx, the CPython dict model in checks/c10_cache.py, HybridNdi. NOT covered (stated): equality of results across dask schedulers / worker counts / tomogram chunkings and numpy-vs-dask inputs - dask's own execution semantics are not encoded, so that part of the statement is outside this check.",
         "ref": "DESIGN.md §4 C10",
     },
+    "C17": {
+        "text": "fourier_shell_correlation executed on image pairs with symbolic voxels over an exact DFT (box sides in {1,2,4}), square roots opaque: every returned value is N/Sqrt(R) with N = Re sum F1 conj(F2) and R = sum|F1|^2 sum|F2|^2 over exactly the bins of shell floor(|f|/dfreq) (shells and DFT recomputed independently with rational arithmetic), symmetric in the inputs, N'=gN / R'=g^2R under a positive gain, N*N=R and N=power for identical inputs, freq=(i+1/2)dfreq. "
+                "Shell labels of the FSC alignment score compared on all 125 shapes in {1..5}^3. Loader-level FSC executed on the C09 stand-in loader: the correlated images are the two zero-normalised split halves times the mask, one column per split, explicit/default dfreq.",
+        "note": "Trusted: z3 (ring identities), symx, FFTStub exact DFT, NdiStub.sum_labels, Cauchy-Schwarz per shell as a lemma for [-1,1], C09's dask/rng stubs. Bounds: boxes with sides in {1,2,4}, <= 8 voxels quick / <= 32 thorough, (box, dfreq) pairs without empty shells. Not covered: other box sides, uint16 label overflow for tiny dfreq, the numeric value of the backend fsc() score.",
+        "ref": "DESIGN.md §4 C17",
+    },
 }
 
 NOT_APPLICABLE = {
